@@ -6,6 +6,7 @@ import random
 import fidelity
 import gen
 import streams
+import history
 
 # ------------------------------------------------------------------------------------------------
 # proof obligations: names in namespace Rtcp.Props, by the file they live in
@@ -292,6 +293,15 @@ def of_kinds(reqs, kinds):
 
 
 def streams_for(pid, r, tier):
+    """the request families of a property, followed by history-sensitive sequences of siblings of
+    a sample of them (tools/history.py)"""
+    base = base_streams_for(pid, r, tier)
+    if pid == "C20":
+        return base           # verdicts are relative to a group's canonical member
+    return base + history.history_stream(pid, base, r, tier)
+
+
+def base_streams_for(pid, r, tier):
     if pid == "C01":
         return parse_all(r, tier) + pad_stream(r, "quick") + pad_big(r)
     if pid == "C02":
